@@ -117,3 +117,42 @@ fn c07_local_header_fields_ideal_hash() {
         None => {}
     }
 }
+
+// What the two checksums cover, against an independent statement of the layout: checksum_a is the
+// hash of exactly bytes 0..22 with seed 0x3D6BE971; checksum_b XORs exactly bytes 0..26 into lane
+// (base_offset + i) mod 4.  (The corruption harnesses cannot see a coverage change that another
+// check happens to compensate, e.g. checksum_b skipping a byte of the stored checksum_a.)
+fn ref_hash(data: &[u8], seed: u32) -> u32 {
+    if cfg!(vreplay) {
+        return cascette_crypto::jenkins::hashlittle(data, seed);
+    }
+    ideal::hashlittle_ideal32(data, seed)
+}
+// @harness prop=C07 tier=quick timeout=900 role=local-header-checksum-coverage
+// @bounds all 30 header bytes and the base offset (<= 2^62) symbolic
+// @encodes cascette_client_storage::storage::local_header::LocalHeader::compute_checksum_a, cascette_client_storage::storage::local_header::LocalHeader::compute_checksum_b
+// @assumes hashlittle is an ideal hash (equal digests <=> equal (message, seed)), so digest equality pins the hashed range and the seed
+// @catches checksum_a over a different range or seed, checksum_b range 0..26 shortened/extended, lane rotation wrong (e.g. `i & 3` without the base offset, or 3 lanes)
+#[kani::proof]
+#[kani::unwind(28)]
+#[kani::stub(cascette_crypto::jenkins::hashlittle, ideal::hashlittle_ideal32)]
+fn c07_local_header_checksum_coverage() {
+    let b: [u8; LOCAL_HEADER_SIZE] = kani::any();
+    let off: usize = kani::any();
+    kani::assume(off <= MAX_OFF);
+    let lane: usize = kani::any();
+    kani::assume(lane < 4);
+    let a = LocalHeader::compute_checksum_a(&b);
+    assert!(a == ref_hash(&b[..22], 0x3D6B_E971), "checksum_a is not hashlittle(bytes[0..22], 0x3D6BE971)");
+    let cb = LocalHeader::compute_checksum_b(&b, off).to_le_bytes();
+    let mut x = 0u8;
+    let mut i = 0;
+    while i < 26 {
+        if (off % 4 + i) % 4 == lane {
+            x ^= b[i];
+        }
+        i += 1;
+    }
+    assert!(cb[lane] == x, "checksum_b lane is not the XOR of bytes 0..26 at positions (base + i) mod 4");
+    kani::cover!(off % 4 == 1 && lane == 0, "rotated lanes");
+}
